@@ -2016,9 +2016,25 @@ impl<'a> TokenBasedLuaGenerator<'a> {
     fn needs_space(&self, next_character: char) -> bool {
         if let Some(last) = self.output.chars().last() {
             utils::should_break_with_space(last, next_character)
+                // a dot written right after a number that ends with a letter or an underscore
+                // (like `0xA` or `1_`) would be read as a part of that number
+                || (next_character == '.'
+                    && (last.is_ascii_alphabetic() || last == '_')
+                    && self.ends_with_number())
         } else {
             false
         }
+    }
+
+    fn ends_with_number(&self) -> bool {
+        // the first character of the word (letters, digits and underscores) at the end of
+        // the output tells if it is a number
+        self.output
+            .chars()
+            .rev()
+            .take_while(|character| character.is_ascii_alphanumeric() || *character == '_')
+            .last()
+            .is_some_and(|character| character.is_ascii_digit())
     }
 
     #[inline]
